@@ -59,6 +59,10 @@ def gen(r, S=None, saa=False):
     if r.random() < 0.35:
         d['econ'] = {'q': rint(r, -1, 1, nz).tolist(), 'c': rint(r, 0, 1, nd).tolist(), 'rhs': float(rint(r, 4, 8))}    # E(q.z + c.x) <= rhs
     d['max'] = False
+    # an expectation-set piece written through an exponential cone: exp(E(z_j) - hi_j) <= 1  (<=> E(z_j) <= hi_j), while the
+    # box written for component j is loosened by 2 - the oracles keep using ex['hi']
+    for ex in d['exps']:
+        ex['xpiece'] = int(r.integers(0, nz)) if r.random() < 0.3 else None
     return d
 
 
@@ -87,7 +91,12 @@ def build(d, presolve=None):
         fs.loc[lab(s)].suppset(z >= np.array(d['lo'][s]), z <= np.array(d['hi'][s])) if (d['labels'] or d['int_labels']) else \
             fs[s].suppset(z >= np.array(d['lo'][s]), z <= np.array(d['hi'][s]))
     for ex in d['exps']:
-        cons = (E(z) >= np.array(ex['lo']), E(z) <= np.array(ex['hi']))
+        hi_written = np.array(ex['hi'], dtype=float)
+        cons = (E(z) >= np.array(ex['lo']), E(z) <= hi_written)
+        if ex.get('xpiece') is not None:
+            j = ex['xpiece']
+            hi_written[j] += 2.0
+            cons = (E(z) >= np.array(ex['lo']), E(z) <= hi_written, rso.exp(E(z[j]) - ex['hi'][j]) <= 1)
         if ex['whole']:
             fs.exptset(*cons)
         elif d['labels'] or d['int_labels']:
